@@ -19,10 +19,14 @@ Proved for every state satisfying the C07 invariant (every reachable state), eve
 * EXACT-OUT, pool's side (`exact_out_out_le_ideal`): `amountOut ≤ idealOut((1 − spf)·amountIn)`, i.e. the amount charged, net of
   the spread factor, is at least the ideal amount in for what was paid out (`idealOut` is monotone: `x ≥ ideal_in(y)` iff
   `idealOut x ≥ y`).
-NOT proved (named `…_partial` in §5 with what is missing): the lower side for exact-out.
+* EXACT-OUT, swapper's side (`exact_out_in_le_ideal_shifted`): for `X = ((amountIn − 1)·10^18 − steps)/(1 + feeRate) −
+  steps·inGainU` (the amount charged less one token, one raw unit per step, the spread charges at their rounded rate and one
+  whole-token rounding per step) the ideal curve pays `idealOut X ≤ delivered + δ' < (amountOut + 1)·10^18 + δ'`,
+  `δ' = sumOutSlack` (`out_slack_bounded`: each step ≤ 3 raw units + liquidity·10^-24): the amount charged is not more than the
+  ideal amount in for (slightly more than) what was paid out, plus about one token per step and the spread charges.
 -/
 import OsmoVerif.Props.C03Limit
-import OsmoVerif.Proofs.CLIdeal3
+import OsmoVerif.Proofs.CLIdeal4
 
 namespace OsmoVerif.Props.C03Ideal
 open OsmoVerif.Num OsmoVerif.Spec OsmoVerif.Gen OsmoVerif.CL OsmoVerif.CLPool OsmoVerif.CLBook OsmoVerif.CLSolv
@@ -303,5 +307,148 @@ theorem executed_exact_out_le_ideal {p p' : Pool} (hinv : Inv p) (hspf : SpfOK p
   obtain ⟨r, _, hex, e1, e2, _⟩ := swap_bal h
   have := exact_out_out_le_ideal hinv hspf (execSwap_spec hex)
   rw [e1, e2]; exact this
+
+/-! ## 5. exact-out: not much more than the ideal amount in for the same amount out -/
+
+/-- the per-step slack `outSlack` (Proofs/CLIdeal4.lean), restated. -/
+theorem out_slack_def (zfo : Bool) (e : StepRec) (liq sp next : Int) (tr : List StepRec) :
+    outSlack zfo e = outLoss zfo e.res.sqrtPriceNext e.st.pool.sqrtPrice +
+      (if zfo then (e.st.pool.liquidity : ℚ) / 10 ^ 36
+        else priceSlackOut0 e.st.pool.liquidity e.st.pool.sqrtPrice e.res.sqrtPriceNext) ∧
+    priceSlackOut0 liq sp next = 10 ^ 36 * (10 ^ 36 + (liq : ℚ) * 10 ^ 18 + next) / ((sp : ℚ) * next) / 10 ^ 18 ∧
+    sumOutSlack zfo (e :: tr) = outSlack zfo e + sumOutSlack zfo tr ∧ sumOutSlack zfo [] = 0 :=
+  ⟨rfl, rfl, rfl, rfl⟩
+
+/-- EXACT-OUT, SWAPPER'S SIDE, full (any number of buckets, any price limit).  `delivered = specified·10^18 − remaining`
+(raw 18-decimal, `< (amountOut + 1)·10^18`).  For the amount charged reduced by its roundings,
+  `X = ((amountIn − 1)·10^18 − steps)/(1 + feeRate spf) − steps·inGainU`
+(`feeRate spf = spf/(1−spf) + 10^-18`, `inGainU` = one token (+ 10^54/m² for token0)), the ideal curve pays
+  `idealOut X ≤ delivered + sumOutSlack < (amountOut + 1)·10^18 + sumOutSlack`.
+Since `idealOut` is monotone this says: `X` is at most the ideal amount in for `delivered + sumOutSlack`. -/
+theorem exact_out_in_le_ideal_shifted {p : Pool} (hinv : Inv p) (hspf : SpfOK p.spf) {zfo : Bool} {pl specified : Int}
+    {r : SwapOut}
+    (h : computeSwap false zfo p.spf pl ⟨p.sqrtPrice, p.tick, p.liquidity⟩ (tickList p) specified = some r) :
+    ∃ (limit : Int) (tr : List StepRec) (st' : SwapSt),
+      Run false zfo p.spf limit
+        { remaining := specified * P18, calculated := 0, pool := ⟨p.sqrtPrice, p.tick, p.liquidity⟩, spreadTotal := 0,
+          noProgress := 0 } tr st' ∧
+      tr.length = r.steps ∧ 0 ≤ st'.remaining ∧
+      poolIdealOut p zfo ((((r.amountIn : ℚ) - 1) * 10 ^ 18 - r.steps) / (1 + feeRate p.spf) -
+          r.steps * inGainU zfo (pathFloor zfo p.sqrtPrice)) ≤
+        ((specified * P18 - st'.remaining : Int) : ℚ) + sumOutSlack zfo tr ∧
+      ((specified * P18 - st'.remaining : Int) : ℚ) < ((r.amountOut : ℚ) + 1) * 10 ^ 18 := by
+  obtain ⟨limit, tr, st', _, hv, hrun, hlen, hp, hrem0, _, c1, c2, hsum, _, hgood, _, hw⟩ := computeSwap_walk hinv hspf h
+  obtain ⟨hs0, hs1⟩ := spfOK_lt hspf
+  have hr := ((rounding_of_run_goodL hs0 hs1 hrun hgood hlen c1 c2).2.2 rfl).2
+  simp only at hr
+  have hfr := feeRate_nonneg hs0 hs1
+  have hX : (((r.amountIn : ℚ) - 1) * 10 ^ 18 - r.steps) / (1 + feeRate p.spf) -
+      r.steps * inGainU zfo (pathFloor zfo p.sqrtPrice) ≤ sumExactIn zfo tr := by
+    rw [sub_le_iff_le_add, div_le_iff₀ (by linarith)]
+    linarith
+  have m1 := (ideal_out_monotone hinv zfo hX).2
+  have hw' : sumExactOut zfo tr = poolIdealOut p zfo (sumExactIn zfo tr) := hw
+  have hout := run_exact_out_lt hs0 hs1 hrun hgood
+  simp only [Bool.false_eq_true, ↓reduceIte] at hsum
+  rw [hsum] at hout c2
+  refine ⟨limit, tr, st', hrun, hlen, hrem0, ?_, ?_⟩
+  · rw [← hw'] at m1
+    exact le_trans m1 hout
+  · have hlt : specified * P18 - st'.remaining < (r.amountOut + 1) * P18 := by
+      rcases Int.lt_or_le (specified * P18 - st'.remaining) 0 with hneg | hnn
+      · have := (c2.2 hneg).2
+        rw [Int.add_mul]; have := P18_pos; omega
+      · exact (c2.1 hnn).2
+    have : ((specified * P18 - st'.remaining : Int) : ℚ) < (((r.amountOut + 1) * P18 : Int) : ℚ) := Int.cast_lt.mpr hlt
+    rw [Int.cast_mul, P18_cast] at this
+    push_cast at this ⊢
+    exact this
+
+/-- the slack in numbers: at sqrt prices ≥ 10^-6 every step's `outSlack` is at most 3 raw units + the bucket's liquidity·10^-24. -/
+theorem out_slack_bounded {p : Pool} (hinv : Inv p) (hspf : SpfOK p.spf) {zfo : Bool} {pl specified : Int} {r : SwapOut}
+    (hfloor : zfo = true ∨ 1000000000000000000000000000000 ≤ p.sqrtPrice)
+    (h : computeSwap false zfo p.spf pl ⟨p.sqrtPrice, p.tick, p.liquidity⟩ (tickList p) specified = some r) :
+    ∃ (limit : Int) (tr : List StepRec) (st' : SwapSt),
+      Run false zfo p.spf limit
+        { remaining := specified * P18, calculated := 0, pool := ⟨p.sqrtPrice, p.tick, p.liquidity⟩, spreadTotal := 0,
+          noProgress := 0 } tr st' ∧
+      tr.length = r.steps ∧ ∀ e ∈ tr, outSlack zfo e ≤ 3 + (e.st.pool.liquidity : ℚ) / 10 ^ 24 := by
+  obtain ⟨limit, tr, st', _, hv, hrun, hlen, _, _, _, _, _, _, _, hgood, _, _⟩ := computeSwap_walk hinv hspf h
+  refine ⟨limit, tr, st', hrun, hlen, fun e he => ?_⟩
+  obtain ⟨⟨⟨hliq, _⟩, _, _, _⟩, _, _⟩ := hgood e he
+  have hfl := (run_floorL hrun hgood).2 e he
+  have hm : 1000000000000000000000000000000 ≤ pathFloor zfo p.sqrtPrice := by
+    unfold pathFloor
+    rcases hfloor with rfl | hge
+    · simp
+    · split
+      · exact Int.le_refl _
+      · exact hge
+  simp only at hfl
+  exact outSlack_le (by omega) (by omega) hliq
+
+/-! ## 6. non-vacuity -/
+
+section Examples
+open OsmoVerif.CLBook
+
+/-- The reachable state of C03 §8 (alice [−1000, 1000), bob [0, 2000), price 1, spread factor 0.1 %): its ideal walk going up
+has the two ticks 1000 and 2000 ahead, and is well-formed. -/
+example :
+    let p := run demoInit (demoOps.take 2)
+    ticksAhead false (tickList p) p.tick =
+      [(1000, -2001499875062460257502969826), (2000, -500749875124843813046785138)] ∧
+    ticksAhead true (tickList p) p.tick =
+      [(0, 500749875124843813046785138), (-1000, 2001499875062460257502969826)] := by
+  decide +kernel
+
+/-- the tick-crossing one-for-zero exact-in swap of C03 §8 (1 500 000 in, 1 497 504 out, two steps) against the ideal curve
+for the same amount: upper side `exact_in_out_le_ideal`, lower side `exact_in_out_ge_ideal_shifted`, and the path lies on
+the ideal curve. -/
+example :
+    (∃ (tr : List StepRec), tr.length = 2 ∧
+      sumExactOut false tr = poolIdealOut (run demoInit (demoOps.take 2)) false (sumExactIn false tr)) ∧
+    ((1497504 : Int) : ℚ) * 10 ^ 18 ≤
+      poolIdealOut (run demoInit (demoOps.take 2)) false (((1500000 : Int) : ℚ) * (10 ^ 18 - (1000000000000000 : Int))) ∧
+    (∃ (tr : List StepRec), tr.length = 2 ∧
+      poolIdealOut (run demoInit (demoOps.take 2)) false
+          ((((1500000 : Int) : ℚ) - 1) * (10 ^ 18 - (1000000000000000 : Int)) - sumInSlack false 1000000000000000 tr) -
+        ((2 : Nat) : ℚ) * outLossU false (pathFloor false (run demoInit (demoOps.take 2)).sqrtPrice) - 10 ^ 18 <
+        ((1497504 : Int) : ℚ) * 10 ^ 18) := by
+  have h : computeSwap true false (run (initPool 100 1000000000000000) (demoOps.take 2)).spf 0
+      ⟨(run (initPool 100 1000000000000000) (demoOps.take 2)).sqrtPrice,
+        (run (initPool 100 1000000000000000) (demoOps.take 2)).tick,
+        (run (initPool 100 1000000000000000) (demoOps.take 2)).liquidity⟩
+      (tickList (run (initPool 100 1000000000000000) (demoOps.take 2))) 1500000 =
+      some ⟨1500000, 1497504, 1500000000000000000000,
+        ⟨1000994507237732597832529718031126170, 1990, 500749875124843813046785138⟩, 2, 1⟩ := by decide +kernel
+  obtain ⟨hinv, hspf⟩ := C03.reachable_state_inv (s := 100) (f := 1000000000000000) (by decide) ⟨by decide, by decide⟩
+    (demoOps.take 2)
+  have hsf : (run (initPool 100 1000000000000000) (demoOps.take 2)).spf = 1000000000000000 := by decide +kernel
+  obtain ⟨_, tr1, _, _, _, hlen1, hw1, _, _⟩ := swap_path_on_ideal_curve hinv hspf h
+  have up := (exact_in_out_le_ideal hinv hspf h).1
+  obtain ⟨_, tr2, _, _, hlen2, _, _, lo⟩ := exact_in_out_ge_ideal_shifted hinv hspf h
+  rw [hsf] at up lo
+  exact ⟨⟨tr1, hlen1, hw1⟩, up, ⟨tr2, hlen2, lo⟩⟩
+
+/-- the exact-out swap of C03 §8 (1 400 000 out for 1 402 224 in): the ideal curve pays at least 1 400 000 for the amount
+charged net of the spread factor. -/
+example : ((1400000 : Int) : ℚ) * 10 ^ 18 ≤
+    poolIdealOut (run demoInit (demoOps.take 2)) false (((1402224 : Int) : ℚ) * (10 ^ 18 - (1000000000000000 : Int))) := by
+  have h : computeSwap false false (run (initPool 100 1000000000000000) (demoOps.take 2)).spf (execPriceLimit false)
+      ⟨(run (initPool 100 1000000000000000) (demoOps.take 2)).sqrtPrice,
+        (run (initPool 100 1000000000000000) (demoOps.take 2)).tick,
+        (run (initPool 100 1000000000000000) (demoOps.take 2)).liquidity⟩
+      (tickList (run (initPool 100 1000000000000000) (demoOps.take 2))) 1400000 =
+      some ⟨1402224, 1400000, 1402223223223224622642,
+        ⟨1000799440591246664722928910808755021, 1599, 500749875124843813046785138⟩, 2, 1⟩ := by decide +kernel
+  obtain ⟨hinv, hspf⟩ := C03.reachable_state_inv (s := 100) (f := 1000000000000000) (by decide) ⟨by decide, by decide⟩
+    (demoOps.take 2)
+  have hsf : (run (initPool 100 1000000000000000) (demoOps.take 2)).spf = 1000000000000000 := by decide +kernel
+  have := exact_out_out_le_ideal hinv hspf h
+  rw [hsf] at this
+  exact this
+
+end Examples
 
 end OsmoVerif.Props.C03Ideal
